@@ -89,17 +89,25 @@ struct W {
     strees: std::vec::Vec<T>,
     itrees: std::vec::Vec<T>,
     items: std::vec::Vec<String>,
+    /// indices whose flag is deliberately not read (a read extends the entry's TTL and would hide a lapse)
+    unread: std::collections::HashSet<u32>,
+    leave_next: bool,
     rng: Rng,
 }
 
 impl W {
-    fn new(hk: Hk, rng: Rng) -> W {
+    /// two host configurations; in both the library's extend_ttl(…, 30 days) is within max_entry_ttl
+    fn new(hk: Hk, rng: Rng, hostcfg: usize) -> W {
         let e = Env::default();
         e.cost_estimate().budget().reset_unlimited();
         e.cost_estimate().disable_resource_limits();
-        e.ledger().with_mut(|l| { l.sequence_number = 100; l.min_temp_entry_ttl = 1; l.min_persistent_entry_ttl = 4096; l.max_entry_ttl = 6_000_000; });
+        if hostcfg % 2 == 0 {
+            e.ledger().with_mut(|l| { l.sequence_number = 100; l.min_temp_entry_ttl = 16; l.min_persistent_entry_ttl = 4096; l.max_entry_ttl = 6_312_000; });
+        } else {
+            e.ledger().with_mut(|l| { l.sequence_number = 7; l.min_temp_entry_ttl = 1; l.min_persistent_entry_ttl = 100; l.max_entry_ttl = 520_000; });
+        }
         W { e, hk, reg: HashMap::new(), digs: vec![], tab: HashMap::new(), ltab: vec![], lset: HashMap::new(), addrs: vec![],
-            strees: vec![], itrees: vec![], items: vec![], rng }
+            strees: vec![], itrees: vec![], items: vec![], unread: Default::default(), leave_next: false, rng }
     }
     fn id(&mut self, d: Dg) -> usize {
         if let Some(&k) = self.reg.get(&d) { return k; }
@@ -197,6 +205,8 @@ impl W {
     }
 
     fn observe(&mut self, tg: &Target, univ: &[u32], addrs: &[usize]) -> String {
+        let univ: std::vec::Vec<u32> = univ.iter().filter(|i| !self.unread.contains(i)).cloned().collect();
+        let univ = &univ[..];
         let (root, cl, bal): (Option<Dg>, std::vec::Vec<String>, std::vec::Vec<String>) = match tg {
             Target::Lib(id) => {
                 let (root, cl) = match self.hk {
@@ -306,7 +316,7 @@ fn outcome_b(o: Option<bool>) -> (&'static str, &'static str) {
 
 /// a trapping getter is printed under an out-of-range key, which every comparison rejects
 fn flag<E1, E2>(i: u32, r: Result<Result<bool, E1>, E2>) -> String {
-    match r { Ok(Ok(v)) => pair(&n(i as u64), &b(v)), _ => pair(&n(i as u64 + (1u64 << 40)), &b(false)) }
+    match r { Ok(Ok(v)) => pair(&n(i as u64), &b(v)), _ => pair(&n(i as u64 + (1u64 << 40)), &b(true)) }
 }
 
 const EMPTY_OBS: &str = "(ob None [] [])";
@@ -391,7 +401,7 @@ fn corruptions(w: &mut W, sorted: bool, root: Dg, q: &NodeInfo, all: &[NodeInfo]
 }
 
 fn verify_trace(out: &mut Out, rng: &mut Rng, hk: Hk, shape: Shape, n: usize, sample: usize, full: bool) {
-    let mut w = W::new(hk, rng.fork(n as u64));
+    let mut w = W::new(hk, rng.fork(n as u64), n);
     let lib = match hk { Hk::S => w.e.register(libs::Lib, ()), Hk::K => w.e.register(libk::Lib, ()) };
     let mut leaves: std::vec::Vec<Dg> = (0..n).map(|_| w.rand_digest()).collect();
     if n >= 3 && w.rng.chance(1, 3) { leaves.sort(); if w.rng.chance(1, 2) { leaves.reverse(); } }
@@ -465,7 +475,7 @@ fn verify_trace(out: &mut Out, rng: &mut Rng, hk: Hk, shape: Shape, n: usize, sa
 
 /// deep chains: proofs of length 31 (largest accepted) and 32 (refused by the positional form)
 fn chain_trace(out: &mut Out, rng: &mut Rng, hk: Hk, n: usize, right: bool) {
-    let mut w = W::new(hk, rng.fork(n as u64 + 1000));
+    let mut w = W::new(hk, rng.fork(n as u64 + 1000), right as usize);
     let lib = match hk { Hk::S => w.e.register(libs::Lib, ()), Hk::K => w.e.register(libk::Lib, ()) };
     let leaves: std::vec::Vec<Dg> = (0..n).map(|_| w.rand_digest()).collect();
     let mut r2 = w.rng.fork(7);
@@ -549,6 +559,8 @@ fn do_claim(w: &mut W, out: &mut Out, d: &Dist, label: &str, index: u32, addr: u
     let call = format!("{} {} {} {} {}", name, n(index as u64), n(addr as u64), z(amount), w.dl(proof));
     let kind = match &d.tg { Target::Air(..) => "airdrop", _ => if d.positional { "claim_idx" } else { "claim" } };
     out.case(&format!("{}/{}/{}", kind, label, if ok { "ok" } else { "fail" }), &format!("{}{}{:?}{:?}", w.hk.name(), call, proof, cur_root));
+    if ok && w.leave_next { w.unread.insert(index); }
+    w.leave_next = false;
     let o = w.observe(&d.tg, &d.univ, &d.addrs);
     w.items.push(format!("it ({}) {} {}", call, if ok { "(Ok None)" } else { "Fail" }, o));
     ok
@@ -570,21 +582,42 @@ fn do_set_claimed(w: &mut W, out: &mut Out, d: &Dist, i: u32) {
         let ok = match w.hk { Hk::S => matches!(libs::LibClient::new(&w.e, id).try_set_claimed(&i), Ok(Ok(()))), Hk::K => matches!(libk::LibClient::new(&w.e, id).try_set_claimed(&i), Ok(Ok(()))) };
         let call = format!("SetClaimed {}", n(i as u64));
         out.case(&format!("set_claimed/{}", if ok { "ok" } else { "fail" }), &format!("{}{}", w.hk.name(), call));
+        if ok && w.leave_next { w.unread.insert(i); }
+        w.leave_next = false;
         let o = w.observe(&d.tg, &d.univ, &d.addrs);
         w.items.push(format!("it ({}) {} {}", call, if ok { "(Ok None)" } else { "Fail" }, o));
     }
 }
 fn do_advance(w: &mut W, out: &mut Out, d: &Dist, k: u32) {
+    // ONE jump of the ledger; the observation after it reads every flag again (also the ones left unread)
     w.e.ledger().with_mut(|l| { l.sequence_number += k; });
-    out.case("advance/ok", &format!("{}", k));
+    out.case(&format!("advance/{}", if GAPS.contains(&k) || k == 1 { k.to_string() } else { "to-round-ledger".into() }), &format!("{}/{}", k, w.unread.len()));
+    w.unread.clear();
     let o = w.observe(&d.tg, &d.univ, &d.addrs);
     w.items.push(format!("it (Advance {}) (Ok None) {}", k, o));
 }
 
 /// a random claim history against the distributor: valid claims, repeats, proofs of other leaves,
 /// corrupted proofs / data, leaves of the other tree, root changes
-fn claim_history(w: &mut W, out: &mut Out, d: &Dist, trees: &[(Dg, std::vec::Vec<LeafData>)], mut cur: Option<usize>, steps: usize, root_changes: bool) {
+const GAPS: [u32; 6] = [20, 100, 17_281, 20_000, 600_000, 4_000_000];
+
+fn claim_history(w: &mut W, out: &mut Out, d: &Dist, trees: &[(Dg, std::vec::Vec<LeafData>)], mut cur: Option<usize>, steps: usize, root_changes: bool, gap: u32) {
     let mut claimed: std::vec::Vec<u32> = vec![];
+    // directed: a flag (and the root) must survive a long gap during which nobody reads it
+    if let Some(k) = cur {
+        let lds = &trees[k].1;
+        let l0 = lds[0].clone();
+        w.leave_next = true;
+        if do_claim(w, out, d, "honest", l0.index, l0.addr, l0.amount, &l0.proof, Some(trees[k].0)) { claimed.push(l0.index); }
+        if root_changes { let i = d.univ[d.univ.len() - 1]; w.leave_next = true; do_set_claimed(w, out, d, i); claimed.push(i); }
+        do_advance(w, out, d, gap);
+        do_claim(w, out, d, if claimed.contains(&l0.index) { "repeat-after-gap" } else { "retry-after-gap" }, l0.index, l0.addr, l0.amount, &l0.proof, Some(trees[k].0));
+        if let Some(l1) = lds.iter().find(|x| !claimed.contains(&x.index)) { let l1 = l1.clone();
+            w.leave_next = true;
+            if do_claim(w, out, d, "honest-after-gap", l1.index, l1.addr, l1.amount, &l1.proof, Some(trees[k].0)) { claimed.push(l1.index); }
+            let g2 = GAPS[w.rng.below(6) as usize]; do_advance(w, out, d, g2);
+        }
+    }
     for _ in 0..steps {
         let cur_root = cur.map(|k| trees[k].0);
         let tk = cur.unwrap_or(0);
@@ -594,6 +627,7 @@ fn claim_history(w: &mut W, out: &mut Out, d: &Dist, trees: &[(Dg, std::vec::Vec
             0..=29 => { // honest claim of a leaf of the current tree (fresh or repeated)
                 let fresh = !claimed.contains(&l.index);
                 let lab = if cur.is_none() { "no-root" } else if fresh { "honest" } else { "repeat" };
+                w.leave_next = w.rng.chance(1, 2);
                 if do_claim(w, out, d, lab, l.index, l.addr, l.amount, &l.proof, cur_root) { claimed.push(l.index); }
             }
             30..=39 => { // prefer an unclaimed leaf
@@ -638,13 +672,24 @@ fn claim_history(w: &mut W, out: &mut Out, d: &Dist, trees: &[(Dg, std::vec::Vec
                 }
             }
             90..=93 => { if root_changes { let i = d.univ[w.rng.below(d.univ.len() as u64) as usize]; do_set_claimed(w, out, d, i); claimed.push(i); } }
-            _ => { let k = match w.rng.below(3) { 0 => 1, 1 => 17280, _ => 600_000 }; do_advance(w, out, d, k); }
+            _ => {
+                // a gap from the list, one ledger, or up to the next "round" ledger number
+                let k = match w.rng.below(5) {
+                    0 => 1,
+                    1 => { let m = [4096u32, 17_280, 65_536, 1 << 20][w.rng.below(4) as usize]; let seq = w.e.ledger().sequence(); m - seq % m }
+                    _ => GAPS[w.rng.below(6) as usize],
+                };
+                do_advance(w, out, d, k);
+            }
         }
+        if !w.unread.is_empty() && w.rng.chance(1, 3) { let k = GAPS[w.rng.below(6) as usize]; do_advance(w, out, d, k); }
     }
+    // at the end everything is read once more after a last gap
+    let k = GAPS[w.rng.below(6) as usize]; do_advance(w, out, d, k);
 }
 
-fn lib_dist_trace(out: &mut Out, rng: &mut Rng, hk: Hk, positional: bool, n: usize, shape: Shape, steps: usize) {
-    let mut w = W::new(hk, rng.fork(n as u64 + 5000));
+fn lib_dist_trace(out: &mut Out, rng: &mut Rng, hk: Hk, positional: bool, n: usize, shape: Shape, steps: usize, hostcfg: usize, gap: u32) {
+    let mut w = W::new(hk, rng.fork(n as u64 + 5000), hostcfg);
     let id = match hk { Hk::S => w.e.register(libs::Lib, ()), Hk::K => w.e.register(libk::Lib, ()) };
     w.addrs.push(id.clone());
     let naddr = 3;
@@ -668,13 +713,13 @@ fn lib_dist_trace(out: &mut Out, rng: &mut Rng, hk: Hk, positional: bool, n: usi
         do_claim(&mut w, out, &d, "no-root", l.index, l.addr, l.amount, &l.proof, None);
     }
     do_set_root(&mut w, out, &d, "tree", trees[0].0); cur.replace(0usize);
-    claim_history(&mut w, out, &d, &trees, cur, steps, true);
-    let desc = format!("distributor {} {} n={} {:?}", hk.name(), if positional { "indexed" } else { "sorted" }, n, shape);
+    claim_history(&mut w, out, &d, &trees, cur, steps, true, gap);
+    let desc = format!("distributor {} {} n={} {:?} hostcfg={} gap={}", hk.name(), if positional { "indexed" } else { "sorted" }, n, shape, hostcfg % 2, gap);
     w.finish(out, &desc, &obs0, 0);
 }
 
-fn airdrop_trace(out: &mut Out, rng: &mut Rng, n: usize, shape: Shape, steps: usize, underfunded: bool) {
-    let mut w = W::new(Hk::S, rng.fork(n as u64 + 9000));
+fn airdrop_trace(out: &mut Out, rng: &mut Rng, n: usize, shape: Shape, steps: usize, underfunded: bool, hostcfg: usize, gap: u32) {
+    let mut w = W::new(Hk::S, rng.fork(n as u64 + 9000), hostcfg);
     // token (Stellar asset contract) and funding
     w.e.mock_all_auths_allowing_non_root_auth();
     let admin = Address::generate(&w.e);
@@ -704,8 +749,8 @@ fn airdrop_trace(out: &mut Out, rng: &mut Rng, n: usize, shape: Shape, steps: us
     let obs0 = w.observe(&d.tg, &d.univ, &d.addrs);
     l1.sort_by_key(|x| std::cmp::Reverse(x.amount));
     let trees = vec![(r1, l1), (r2, l2)];
-    claim_history(&mut w, out, &d, &trees, Some(0), steps, false);
-    let desc = format!("airdrop n={} {:?} {}", n, shape, if underfunded { "underfunded" } else { "funded" });
+    claim_history(&mut w, out, &d, &trees, Some(0), steps, false, gap);
+    let desc = format!("airdrop n={} {:?} {} hostcfg={} gap={}", n, shape, if underfunded { "underfunded" } else { "funded" }, hostcfg % 2, gap);
     w.finish(out, &desc, &obs0, 0);
 }
 
@@ -739,13 +784,15 @@ fn main() {
         }
     }
     // ---- distributor (library, both hashers, both forms)
+    let mut tno = out.cfg.seed as usize;
     let nd = (if thorough { 60 } else { 5 }) * scale;
     for k in 0..nd {
         for hk in [Hk::S, Hk::K] {
             for positional in [false, true] {
                 let n = 1 + rng.below(9) as usize;
                 let sh = SHAPES[rng.below(6) as usize];
-                lib_dist_trace(&mut out, &mut rng, hk, positional, if k == 0 { 1 + (positional as usize) * 3 } else { n }, sh, if thorough { 60 } else { 36 });
+                tno += 1;
+                lib_dist_trace(&mut out, &mut rng, hk, positional, if k == 0 { 1 + (positional as usize) * 3 } else { n }, sh, if thorough { 60 } else { 36 }, tno / 6, GAPS[tno % 6]);
             }
         }
     }
@@ -754,7 +801,8 @@ fn main() {
     for k in 0..na {
         let n = 1 + rng.below(8) as usize;
         let sh = SHAPES[rng.below(6) as usize];
-        airdrop_trace(&mut out, &mut rng, n, sh, if thorough { 50 } else { 30 }, k % 3 == 1);
+        tno += 1;
+        airdrop_trace(&mut out, &mut rng, n, sh, if thorough { 50 } else { 30 }, k % 3 == 1, tno / 6, GAPS[tno % 6]);
     }
     out.finish();
 }
